@@ -2,7 +2,7 @@
 from frontcheck import *
 
 PROP = "C14"
-THEOREMS = []
+THEOREMS = [tuple(x) for x in json.load(open(os.path.join(VERIF, "lib", "pins", PROP + ".json")))]
 
 
 def dedup_suite(run, rng, har, drv, stats):
@@ -31,4 +31,4 @@ def dedup_suite(run, rng, har, drv, stats):
 
 
 def main(tier, seed, replay=None):
-    return front_check(PROP, THEOREMS, tier, seed, dict(dup_outputs=True, includes=True), replay=replay, extra_suites=dedup_suite, skip_include_scope=True)
+    return front_check(PROP, THEOREMS, tier, seed, extra_modules=["Model.All", "Proofs.EvalScope", "Proofs.EvalFiles", "Proofs.GraphDedup", "Proofs.GraphAddBuild", "Proofs.GraphLoad"], gen_kw=dict(dup_outputs=True, includes=True), replay=replay, extra_suites=dedup_suite, skip_include_scope=True)
